@@ -75,7 +75,7 @@ func coqData(b []byte) string {
 		}
 		if j-i >= 24 {
 			flush()
-			parts = append(parts, fmt.Sprintf("[(ascii_of_N %d, %d)]", b[i], j-i))
+			parts = append(parts, fmt.Sprintf("[(ascii_of_N %d, %d%%N)]", b[i], j-i))
 		} else {
 			lit = append(lit, b[i:j]...)
 		}
